@@ -671,13 +671,8 @@ class World(WorldBase):
             o = dict(op)
             o.pop("fault")
             yield o
-        if op["op"] == "mk_snaps":
-            r = op["recipe"]
-            for k, lo in (("N", 6), ("T", 1), ("K", 1)):
-                if r[k] > lo:
-                    o = copy.deepcopy(op)
-                    o["recipe"][k] = max(lo, r[k] // 2) if k == "N" else r[k] - 1
-                    yield o
+        # (bundle recipes are not shrunk: later operations carry sizes derived from them, and a
+        # replay that is internally inconsistent could keep a signature for the wrong reason)
 
 
 def kind_of(path):
